@@ -147,13 +147,13 @@ class Ctx(object):
     def array(self):
         return np.asarray(self.sample('rfi')).copy()
 
-    def beads(self):
+    def beads(self, pops=3):
         import FlowCal.io
         rng = np.random.Generator(np.random.PCG64(self.seed))
-        n = 240
-        lab = np.arange(n) % 3
-        fl = np.round(np.clip(np.array([40, 150, 500])[lab] * np.exp(rng.normal(0, 0.04, n)), 1, 1000))
-        fl2 = np.round(np.clip(np.array([35, 130, 450])[lab] * np.exp(rng.normal(0, 0.04, n)), 1, 1000))
+        n = 80 * pops
+        lab = np.arange(n) % pops
+        fl = np.round(np.clip(np.array([40, 150, 500, 12][:pops])[lab] * np.exp(rng.normal(0, 0.04, n)), 1, 1000))
+        fl2 = np.round(np.clip(np.array([35, 130, 450, 10][:pops])[lab] * np.exp(rng.normal(0, 0.04, n)), 1, 1000))
         ev = [[int(rng.integers(300, 600)), int(rng.integers(300, 600)), int(fl[i]), int(fl2[i]), 5, i] for i in range(n)]
         spec = dict(self.spec('int'))
         spec.pop('n'), spec.pop('specials'), spec.pop('col_kind')
@@ -360,18 +360,23 @@ def build_recipes():
                 dict(xscale='log', yscale='log', xlim=lim, ylim=_own(c, [0.0, 1e5])))
     for which in ('list', 'array', 'range'):
         add('mef.plot_standard_curve', lambda c, w=which: rec_psc0(c, w))
-    for variant in ('real', 'stub', 'plot', 'ndarray'):
+    for variant in ('real', 'stub', 'plot', 'ndarray', 'ndarray_discard'):
         def rec_gt(c, variant=variant):
-            b = c.beads()
+            b = c.beads(4 if variant == 'ndarray_discard' else 3)
             mv = _own(c, [[100, 1000, 10000], [80, 800, 8000]])
             if variant == 'ndarray':
                 mv = _own(c, np.array([[100., 1000., 10000.], [80., 800., 8000.]]))
+            if variant == 'ndarray_discard':
+                # four populations, the dimmest of which a (caller-supplied) selection step leaves out of the fit
+                mv = _own(c, np.array([[10., 100., 1000., 10000.], [8., 80., 800., 8000.]]))
             kw = dict(clustering_channels=_own(c, ['FL1-H', 'FL2-H']), clustering_params=_own(c, {}),
                       statistic_params=_own(c, {}), selection_params=_own(c, {}), fitting_params=_own(c, {}), full_output=True)
             if variant == 'stub':
                 kw['clustering_fxn'] = lambda data, n, **k: np.arange(data.shape[0]) % n
             if variant == 'plot':
                 kw.update(plot=True, plot_dir=None)
+            if variant == 'ndarray_discard':
+                kw['selection_fxn'] = lambda populations, **k: np.array([False] + [True] * (len(populations) - 1))
             return (mef.get_transform_fxn, [b, mv, _own(c, ['FL1-H', 'FL2-H'])], kw)
         add('mef.get_transform_fxn', rec_gt)
 
